@@ -98,6 +98,33 @@ def validate(events, name, canary=True):
     return res, bad
 
 
+def classify_lost_abort(src, args, tracing):
+    """Why did an abort that the source asks for not happen?  Re-runs the module with the optimiser's stages
+    and returns the key of a recorded finding when the chain shows exactly that defect, else None."""
+    o = vlib.run_harness("aiken_run", stdin_lines=[{"id": 0, "src": src, "tracings": [tracing], "fns": [{"name": "entry", "args": [args]}],
+                                                    "pre": True, "stages": True}])[0]
+    run = o["runs"][0]
+    if run["check"] != "ok" or run["fns"][0]["compile"] != "ok":
+        return None
+    x = run["fns"][0]["results"][0]
+    return classify_chain([("pre", x["pre"])] + [(s["stage"], s["out"]) for s in x.get("stages", [])] + [("post", x["post"])])
+
+
+def classify_chain(chain):
+    outs = [o["o"] for _, o in chain]
+    names = [n for n, _ in chain]
+    if outs[0] != "fail" or outs[-1] != "val":
+        return None
+    first_val = next(i for i, o in enumerate(outs) if o == "val")
+    if any(o != "val" for o in outs[first_val:]) or any(o != "fail" for o in outs[:first_val]):
+        return None
+    if names[first_val] == "afterwards":
+        return "afterwards:abort-to-value"
+    if names[first_val] == "multi_pass*" and chain[0][1].get("e") == "DeserialisationError":
+        return "multi_pass:deserialisation-check-dropped"
+    return None
+
+
 def sample_of(m, e):
     return {"source": m["src"][m["src"].index("pub fn entry"):][:1200], "args": e["args"], "observed": e["out"]}
 
@@ -116,7 +143,8 @@ def c01(tier):
     res, bad = validate(events, "c01")
     for e, why in bad:
         m = mods[e["_mi"]]
-        rep.violation(vlib.canon_hash([m["src"], e["args"]]),
+        key = classify_lost_abort(m["src"], e["args"], e["_tr"]) if "aborts" in why else None
+        rep.violation(key or vlib.canon_hash([m["src"], e["args"]]),
                       {"src": m["src"], "fn": "entry", "args": e["args"], "sig": m["sig"], "module": m["spec"], "observed": e["out"], "tracing": e["_tr"]},
                       "Obs_Aiken: " + why)
     fams = enumerated_families(tier, rep)
@@ -241,7 +269,8 @@ def c06(tier):
         # value-vs-failure disagreements are C01's; C06 only speaks about HOW a checked program may fail
         if "aborts" in why or "failed" in why:
             m = mods[e["_mi"]]
-            rep.violation(vlib.canon_hash([m["src"], e["args"]]),
+            key = classify_lost_abort(m["src"], e["args"], e["_tr"]) if "aborts" in why else None
+            rep.violation(key or vlib.canon_hash([m["src"], e["args"]]),
                           {"src": m["src"], "fn": "entry", "args": e["args"], "observed": e["out"], "tracing": e["_tr"]},
                           "Obs_Aiken: " + why + " (a failure the source does not ask for, or a requested failure that did not happen)")
     # ill-typed mutants: the checker must reject what the typing discipline forbids
@@ -334,7 +363,8 @@ def c14(tier):
     # (1) every setting must give Eval's outcome ...
     for e, why in bad:
         m = mods[e["_mi"]]
-        rep.violation(vlib.canon_hash([m["src"], e["args"], e["_tr"]]),
+        key = classify_lost_abort(m["src"], e["args"], e["_tr"]) if "aborts" in why else None
+        rep.violation(key or vlib.canon_hash([m["src"], e["args"], e["_tr"]]),
                       {"src": m["src"], "fn": "entry", "args": e["args"], "observed": e["out"], "tracing": e["_tr"]},
                       "under tracing %s: Obs_Aiken: %s" % (e["_tr"], why))
     # (2) ... hence each other's; compared directly as well, so that runs the spec cannot judge still count
@@ -414,7 +444,7 @@ def c02(tier):
                 if len(set(keys)) > 1:
                     disagreements += 1
                     first = next(i for i in range(1, len(keys)) if keys[i] != keys[i - 1])
-                    rep.violation(vlib.canon_hash([m["src"], a, r["tracing"]]),
+                    rep.violation(classify_chain(chain) or vlib.canon_hash([m["src"], a, r["tracing"]]),
                                   {"src": m["src"], "fn": "entry", "args": a, "tracing": r["tracing"],
                                    "chain": [[s, slim(o2)] for s, o2 in chain], "first_divergence": chain[first][0]},
                                   "the optimiser changed the outcome at stage %s: %s -> %s" % (chain[first][0], keys[first - 1][:80], keys[first][:80]))
